@@ -74,7 +74,7 @@ func FuzzPathOps(f *testing.F) {
 	f.Add("-1", -1, "0x10", 2, "a.-1.b", -5, uint8(1))
 	f.Add("", -1, "", -2, "5000", 5000, uint8(5))
 	f.Fuzz(func(t *testing.T, n1 string, i1 int, n2 string, i2 int, n3 string, i3 int, flags uint8) {
-		c := PathCase{PathSep: flags&1 != 0, NumKeys: flags&2 != 0}
+		c := PathCase{PathSep: flags&1 != 0, NumKeys: flags&2 != 0, Escape: len(n3)%2 == 1}
 		if flags&4 != 0 {
 			c.MaxIdx = int64(flags >> 3)
 			c.MaxIdx0 = c.MaxIdx == 0
